@@ -114,6 +114,65 @@ fn step(w: &[&str]) -> Option<String> {
             })
         }
         ("probit", 3) => Some(format!("ok z={}", b(src::h_probit(fl(w[2])?)))),
+        // nat gstats <lenQ> <lenM> <common> <scaled> <k> <removed> <ci> <conf|N>
+        //   sourmash::index::calculate_gather_stats (src/core/src/index/mod.rs): the ANI fields of the native GatherResult.
+        //   original query = hashes 1..lenQ; match = 1..common plus lenM-common foreign hashes; the remaining query has lost
+        //   the first `removed` common hashes to earlier gather rounds.
+        ("gstats", 10) => {
+            use sourmash::encodings::HashFunctions;
+            use sourmash::signature::Signature;
+            use sourmash::sketch::minhash::KmerMinHash;
+            use sourmash::sketch::Sketch;
+            let (lq, lm, cm, scaled, k, rem) = (nat(w[2])?, nat(w[3])?, nat(w[4])?, nat(w[5])?, nat(w[6])?, nat(w[7])?);
+            let ci = match w[8] {
+                "0" => false,
+                "1" => true,
+                _ => return None,
+            };
+            let conf = if w[9] == "N" { None } else { Some(fl(w[9])?) };
+            if scaled == 0 || k == 0 || cm > lq || cm > lm || rem > cm || lq == 0 || lm == 0 {
+                return None;
+            }
+            let mk = || KmerMinHash::new(scaled, k as u32, HashFunctions::Murmur64Dna, 42, false, 0);
+            let (mut orig, mut remaining, mut mmh) = (mk(), mk(), mk());
+            for h in 1..=lq {
+                orig.add_hash(h);
+                if h > rem {
+                    remaining.add_hash(h);
+                }
+            }
+            for h in 1..=cm {
+                mmh.add_hash(h);
+            }
+            for h in (lq + 1)..=(lq + lm - cm) {
+                mmh.add_hash(h);
+            }
+            let mut sig = Signature::default();
+            sig.push(Sketch::MinHash(mmh));
+            let match_size = (cm - rem) as usize;
+            let r = sourmash::index::calculate_gather_stats(
+                &orig, remaining, sig.into(), match_size, 0, 0, lq as usize, false, ci, conf,
+            );
+            Some(match r {
+                Err(_) => "err".to_string(),
+                Ok((g, _)) => {
+                    let o = |x: Option<f64>| x.map(b).unwrap_or_else(|| "N".to_string());
+                    format!(
+                        "ok q={} m={} avg={} max={} qlo={} qhi={} mlo={} mhi={} foq={} fmo={}",
+                        b(g.query_containment_ani()),
+                        b(g.match_containment_ani()),
+                        b(g.average_containment_ani()),
+                        b(g.max_containment_ani()),
+                        o(g.query_containment_ani_ci_low()),
+                        o(g.query_containment_ani_ci_high()),
+                        o(g.match_containment_ani_ci_low()),
+                        o(g.match_containment_ani_ci_high()),
+                        b(g.f_orig_query()),
+                        b(g.f_match_orig()),
+                    )
+                }
+            })
+        }
         _ => None,
     }
 }
